@@ -9,6 +9,8 @@
 //! targets, with the allocation counter armed; the harness is compiled with overflow checks and
 //! debug assertions. Oracle: no panic (a panic is reported by main.rs with its site as class),
 //! 0 allocations, iteration budgets not exceeded (termination).
+#[path = "m_scale_chk.rs"]
+mod chk;
 use crate::common::*;
 use crate::shapes::*;
 use crate::with_shape;
@@ -246,12 +248,16 @@ impl Module for M {
                 }
             }
         }
+        chk::generate(_pid, tier, rng, emit);
     }
 
     fn execute(&self, op: &str, ctx: &mut Ctx) -> String {
         let mut t = Toks::new(op);
         let stream = t.str();
         alloc_reset();
+        if stream.starts_with("scale.chk.") {
+            return chk::execute(op, ctx);
+        }
         match stream {
             "scale.shape" => {
                 let shape = Shape::parse(&mut t);
